@@ -1,7 +1,131 @@
-(* C16 -- property theorems (placeholder while the proofs are being written). *)
-From Clip Require Import base.Geom base.FloatModel model.Scale model.ErrorModel.
+(* C16 -- the floating-point API is the integer API on scaled coordinates.
+   Models: model/Scale.v (bit-exact binary64 scaling arithmetic, scale selection), model/ErrorModel.v (PathsD wrappers).
+   Notation: R_of x = B2R (Prim2B x) is the real number a finite double denotes (Flocq); rnd_A = Flocq's ZnearestA,
+   the nearest integer with ties away from zero (std::round); pow10_spec p = the correctly rounded double 10^p;
+   scaleD_spec p = the double 2^k with k = log2_above_pow10 p. *)
+From Coq Require Import ZArith Reals Floats QArith List.
+From Flocq Require Import Core.Core IEEE754.BinarySingleNaN IEEE754.PrimFloat.
+From Clip Require Import base.Geom.
+From Clip Require Import base.FloatModel.
+From Clip Require Import model.Scale.
+From Clip Require Import model.ErrorModel.
+From Clip Require Import proofs.ScaleProofs.
+From Clip Require Import proofs.ScaleFloat.
+From Clip Require Import proofs.ErrorModelProofs.
+Import ListNotations.
 Local Open Scope Z_scope.
 
-Theorem C16_scale_examples : scaleD_spec 2 = 128%float /\ pow10_spec 2 = 100%float.
-Proof. split; reflexivity. Qed.
-Print Assumptions C16_scale_examples.
+(* The decimal powers the scale selection starts from are the correctly rounded ones (exact comparison in Q):
+   a normal double m*2^e with |m*2^e - 10^p| <= 2^e/2; this is what the run-time check compares libm's pow(10,p) with. *)
+Theorem C16_pow10_correctly_rounded : forall p, - 8 <= p <= 8 -> correctly_rounded_pow10 p = true.
+Proof. exact pow10_spec_correctly_rounded. Qed.
+Print Assumptions C16_pow10_correctly_rounded.
+
+(* ClipperD's scale 2^(ilogb(10^p)+1) is the smallest power of two strictly above 10^p, its reciprocal is exact *)
+Theorem C16_clipperD_scale : forall p, - 8 <= p <= 8 ->
+  let k := log2_above_pow10 p in
+  scaleD_model pow10_spec p = scaleD_spec p /\
+  F_decode (scaleD_spec p) = Some (false, 2 ^ 52, k - 52) /\
+  (Qpower 2 (k - 1) <= Qpower 10 p)%Q /\ (Qpower 10 p < Qpower 2 k)%Q /\
+  inv_of (scaleD_spec p) = pow2f (- k).
+Proof.
+  intros p H k. split; [exact (scaleD_model_spec p H)|]. split.
+  - unfold scaleD_spec. apply pow2f_decode. pose proof (log2_above_range p H). unfold k. lia.
+  - destruct (is_log2_above_Q p k (log2_above_pow10_spec p H)) as [A B]. split; [exact A|]. split; [exact B|].
+    exact (invD_exact p H).
+Qed.
+Print Assumptions C16_clipperD_scale.
+
+(* power-of-two scale: the product is exact, so the integer is the *real* product rounded half away from zero *)
+Theorem C16_pow2_scale_exact : forall p x s m e,
+  - 8 <= p <= 8 -> F_decode x = Some (s, m, e) ->
+  let k := log2_above_pow10 p in
+  - 1074 <= e + k ->                                              (* the product does not underflow *)
+  (Rabs (R_of x * bpow radix2 k) <= bpow radix2 52)%R ->          (* the property's domain *)
+  scaleD_spec p = pow2f k /\
+  R_of (x * scaleD_spec p) = (R_of x * bpow radix2 k)%R /\
+  scale_coord (scaleD_spec p) x = Some (rnd_A (R_of x * bpow radix2 k)).
+Proof. exact clipperD_scale_exact. Qed.
+Print Assumptions C16_pow2_scale_exact.
+
+(* ... and descaling a result coordinate |z| < 2^53 by the reciprocal is exact: z * 2^-k *)
+Theorem C16_pow2_descale_exact : forall p z,
+  - 8 <= p <= 8 -> Z.abs z < 2 ^ 53 ->
+  let k := log2_above_pow10 p in
+  BinarySingleNaN.is_finite (Prim2B (descale_coord (inv_of (scaleD_spec p)) z)) = true /\
+  R_of (descale_coord (inv_of (scaleD_spec p)) z) = (IZR z * bpow radix2 (- k))%R.
+Proof. exact clipperD_descale_exact. Qed.
+Print Assumptions C16_pow2_descale_exact.
+
+(* any scale (10^p for the free functions): "rounded to nearest" is the rounding half away from zero of the *double*
+   product x*s -- the double rounding is explicit; scale_coord is what Point<int64_t>(x*s, ...) computes *)
+Theorem C16_dec_scale : forall s x z, scale_coord s x = Some z -> z = rnd_A (R_of (x * s)).
+Proof. exact scale_any_nearest. Qed.
+Print Assumptions C16_dec_scale.
+
+(* range guard, coordinate-wise: a scaled double inside [min_coord, max_coord] converts without undefined behaviour.
+   _partial: the step from ScalePaths' test of the min/max bounds to every single coordinate (monotonicity of the rounded
+   product, NaN-free input) is not proved; the oracle evaluates it on every case (GUARD flag). *)
+Theorem C16_range_guard_partial : forall s x,
+  fleb min_coord (x * s) = true -> fleb (x * s) max_coord = true ->
+  exists z, scale_coord s x = Some z /\ - 2 ^ 61 <= z <= 2 ^ 61.
+Proof. exact range_guard_coord. Qed.
+Print Assumptions C16_range_guard_partial.
+
+(* without the NaN-free hypothesis the guard is false of the faithful model: NaN passes the bounds test *)
+Theorem C16_range_guard_nan_refuted :
+  exists ps, range_ok 100 100 ps = true /\ scale_paths_raw 100 100 ps = None.
+Proof. exists [[(nan, 0%float)]]. exact range_guard_nan_witness. Qed.
+Print Assumptions C16_range_guard_nan_refuted.
+
+(* a defined conversion never leaves int64 *)
+Theorem C16_scale_path_ub_free : forall sx sy p q,
+  scale_path sx sy p = Some q -> forall v, In v q -> in_i64 (fst v) = true /\ in_i64 (snd v) = true.
+Proof. exact scale_path_ub_free. Qed.
+Print Assumptions C16_scale_path_ub_free.
+
+(* API shape: on valid arguments every PathsD wrapper is  descale o entry64 o scale  with the documented scale, and
+   delta / arc_tolerance multiplied by the same factor ([spec_call] is that call; [value_of_spec] wraps it).
+   [pow10] is libm's pow(10,.), assumed (and checked at run time) to be the correctly rounded table. *)
+Theorem C16_api_shape : forall exc pow10,
+  (forall p, - 8 <= p <= 8 -> pow10 p = pow10_spec p) ->
+  forall p, - 8 <= p <= 8 ->
+  let sD := scaleD_spec p in let s10 := pow10_spec p in
+  (forall S O C, range_ok sD sD S = true -> range_ok sD sD O = true -> range_ok sD sD C = true ->
+     clipperD_run exc pow10 p true true true S O C = Val (0, value_of_spec (spec_call KPow2 p [S; O; C] None []))) /\
+  (forall S C, range_ok sD sD S = true -> range_ok sD sD C = true ->
+     booleanopD exc pow10 p S C = Val (0, value_of_spec (spec_call KPow2 p [S; []; C] None []))) /\
+  (forall S, range_ok sD sD S = true ->
+     union1D exc pow10 p S = Val (0, value_of_spec (spec_call KPow2 p [S; []; []] None []))) /\
+  (forall ps delta arc, feqb delta 0 = false -> range_ok s10 s10 ps = true ->
+     inflateD exc pow10 p ps delta arc = Val (0, value_of_spec (spec_call KDec p [ps] None [delta; arc]))) /\
+  (forall r ps, rect_is_empty r = false -> ps <> [] -> range_ok s10 s10 ps = true -> scale_rect s10 r <> None ->
+     rectclipD exc pow10 p r ps = Val (0, value_of_spec (spec_call KDec p [ps] (Some r) []))) /\
+  (forall pth, trimcollinearD exc pow10 p pth = Val (0, value_of_spec (spec_call KDec p [[pth]] None []))) /\
+  (forall pat pth, minkowskiD exc pow10 p pat pth = Val (0, value_of_spec (spec_call KDec p [[pat]; [pth]] None []))).
+Proof.
+  intros exc pow10 Hpow p Hp sD s10. repeat split.
+  - intros S O C. exact (clipperD_shape exc pow10 Hpow p S O C Hp).
+  - intros S C. exact (booleanopD_shape exc pow10 Hpow p S C Hp).
+  - intros S. exact (union1D_shape exc pow10 Hpow p S Hp).
+  - intros ps delta arc Hd. exact (inflateD_shape exc pow10 Hpow p ps delta arc Hp Hd).
+  - intros r ps Hr Hne. exact (rectclipD_shape exc pow10 Hpow p r ps Hp Hr Hne).
+  - intros pth. exact (trimcollinearD_shape exc pow10 Hpow p pth Hp).
+  - intros pat pth. exact (minkowskiD_shape exc pow10 Hpow p pat pth Hp).
+Qed.
+Print Assumptions C16_api_shape.
+
+(* the hypotheses of C16_api_shape are satisfiable *)
+Theorem C16_api_shape_sat :
+  range_ok (scaleD_spec 2) (scaleD_spec 2) [sq] = true /\ range_ok (pow10_spec 2) (pow10_spec 2) [sq] = true /\
+  rect_is_empty (0%float, 0%float, 5%float, 5%float) = false /\
+  scale_rect (pow10_spec 2) (0%float, 0%float, 5%float, 5%float) <> None.
+Proof. exact shape_hyps_sat. Qed.
+Print Assumptions C16_api_shape_sat.
+
+(* the one place where the faithful wrapper model is NOT descale o entry64 o scale: InflatePaths(PathsD) with delta = 0
+   returns its input unrounded (the integer operation on the scaled input would return the input rounded to the grid) *)
+Theorem C16_inflate_delta0_refuted : forall exc pow10 p ps arc, - 8 <= p <= 8 ->
+  inflateD exc pow10 p ps 0 arc = Val (0, VInput).
+Proof. exact inflateD_delta0_returns_input. Qed.
+Print Assumptions C16_inflate_delta0_refuted.
